@@ -27,6 +27,8 @@ type azCtx struct {
 	V      string
 	loops  []*rangeLoop
 	blocks *rangeLoop // loop over v.biscuit.blocks
+	// methods of the authorizer implementation
+	methods []*ssa.Function
 }
 
 func (p *Prog) azContext(r *Reporter) *azCtx {
@@ -41,7 +43,7 @@ func (p *Prog) azContext(r *Reporter) *azCtx {
 		r.Dunno("?", "biscuit.authorizer", "Authorize", "method not found")
 		return nil
 	}
-	c := &azCtx{p: p, fn: fn, recv: fn.Params[0], V: fn.Params[0].Name(), loops: rangeLoops(fn)}
+	c := &azCtx{p: p, fn: fn, recv: fn.Params[0], V: fn.Params[0].Name(), loops: rangeLoops(fn), methods: ms}
 	for _, l := range c.loops {
 		if p.D(l.seq) == c.V+".biscuit.blocks" {
 			c.blocks = l
@@ -234,8 +236,52 @@ func ruleAZResetRules(p *Prog, r *Reporter) {
 			}
 		}
 	}
+	// the authorizer's own world must keep its rules: they belong to the authorizer (AddRule) and are needed by the
+	// next Authorize / Query. Removing them there was defect D28; they are removed from each block's copy instead.
+	for _, m := range c.methods {
+		if m.Name() == "Reset" {
+			continue
+		}
+		for _, cl := range callsIn(m) {
+			if isCallTo(cl.Common(), "datalog.World.ResetRules") && p.D(cl.Common().Args[0]) == m.Params[0].Name()+".world" {
+				r.Bad(p.instrPos(cl), p.FuncName(m), "ResetRules on the authorizer's world", "the rules of the authorizer's own world are deleted and never restored: the rules added through AddRule are missing from every later Authorize or Query (a deny policy on a derived fact stops matching)")
+			}
+		}
+	}
 	if reset == nil {
-		r.Bad(p.instrPos(c.blocks.header.Instrs[0]), name, "ResetRules before block loop", "the authority-level rules are still present when block worlds are cloned: a rule of the authority/authorizer fires on facts supplied by an attenuation block, so a block can derive rights")
+		// every copy of the authority-level world made for a block drops the rules before anything is added to or run on it
+		nClone, okAll := 0, true
+		for _, cl := range callsIn(c.fn) {
+			cv, isV := cl.(*ssa.Call)
+			if !isV || !isCallTo(&cv.Call, "datalog.World.Clone") || p.D(cv.Call.Args[0]) != c.V+".world" || !c.blocks.inside(cv.Block()) {
+				continue
+			}
+			nClone++
+			okClone := false
+			for _, c2 := range callsIn(c.fn) {
+				if _, imm := c2.(*ssa.Call); !imm || !isCallTo(c2.Common(), "datalog.World.ResetRules") || c2.Common().Args[0] != ssa.Value(cv) || !instrDominates(cv, c2) {
+					continue
+				}
+				// this reset comes before every other use of the copy
+				first := true
+				for _, c3 := range callsIn(c.fn) {
+					if c3 == c2 || len(c3.Common().Args) == 0 || c3.Common().Args[0] != ssa.Value(cv) {
+						continue
+					}
+					if !instrDominates(c2, c3) {
+						first = false
+					}
+				}
+				if first {
+					okClone = true
+				}
+			}
+			if !okClone {
+				okAll = false // the copy is used before its rules were dropped (or they never are)
+			}
+		}
+		r.Check(nClone > 0 && okAll, p.instrPos(c.blocks.header.Instrs[0]), name, "ResetRules before block loop", "every block's copy of the world drops the authority-level rules before anything is added to or run on it", "the authority-level rules are still present in a block's world: a rule of the authority/authorizer fires on facts supplied by an attenuation block, so a block can derive rights")
+		p.checkResetRulesBody(r)
 		return
 	}
 	// no rule is added to the authority-level world afterwards
@@ -246,6 +292,10 @@ func ruleAZResetRules(p *Prog, r *Reporter) {
 		}
 	}
 	r.Check(ok, p.instrPos(reset), name, "ResetRules before block loop", "v.world.ResetRules() dominates the block loop and no authority-level rule is added after it", "a rule is added to the authority-level world after ResetRules")
+	p.checkResetRulesBody(r)
+}
+
+func (p *Prog) checkResetRulesBody(r *Reporter) {
 	// ResetRules really empties the rule list, unconditionally
 	if rr := p.Func("datalog", "World", "ResetRules"); rr != nil {
 		okBody := false
